@@ -288,6 +288,20 @@ func c11CheckDec(c c11DecCase) h.Result {
 			r.Fail("CompressedRistretto.UnmarshalBinary:receiver-not-identity-on-error", "in=%x receiver=%x", in, cu[:])
 		}
 	}
+	// the same call on a receiver that already holds these 32 bytes (unvalidated): the decision is a function of the
+	// string, not of the receiver's history
+	r.Eval(1)
+	var cs CompressedRistretto
+	copy(cs[:], in)
+	err = cs.UnmarshalBinary(in)
+	switch {
+	case (err == nil) != ok:
+		r.Fail("CompressedRistretto.UnmarshalBinary(receiver-holds-the-input):wrong-decision", "in=%x err=%v reference-accepts=%v (%s)", in, err, ok, outcome)
+	case ok && !bytes.Equal(cs[:], in):
+		r.Fail("CompressedRistretto.UnmarshalBinary(receiver-holds-the-input):wrong-bytes", "in=%x stored=%x", in, cs[:])
+	case !ok && !bytes.Equal(cs[:], c11Zero32):
+		r.Fail("CompressedRistretto.UnmarshalBinary(receiver-holds-the-input):receiver-not-identity-on-error", "in=%x receiver=%x", in, cs[:])
+	}
 	// byte comparison of compressed forms: differs from a one-bit neighbour
 	for i := 0; i < 32; i++ {
 		nb := cp
